@@ -1014,11 +1014,193 @@ fn gen_bn_random(thorough: bool, rng: &mut Rng) -> Result<(), String> {
     Ok(())
 }
 
+// ------------------------------------------------------------------ artefact exchange between the two builds (C18)
+
+fn xchg_dir(be: &str) -> std::path::PathBuf {
+    std::path::PathBuf::from(env!("CARGO_MANIFEST_DIR")).join("..").join("work").join("xchg").join(be)
+}
+
+fn other_backend() -> &'static str {
+    if cfg!(feature = "ossl") {
+        "rust"
+    } else {
+        "openssl"
+    }
+}
+
+fn bmap(xs: &[(&str, &str)]) -> std::collections::BTreeMap<String, String> {
+    xs.iter().map(|(k, v)| (k.to_string(), v.to_string())).collect()
+}
+
+fn make_request() -> Result<anoncreds_clsignatures::SubProofRequest, String> {
+    use anoncreds_clsignatures::Verifier;
+    let mut b = Verifier::new_sub_proof_request_builder().map_err(|e| e.to_string())?;
+    b.add_revealed_attr("name").map_err(|e| e.to_string())?;
+    b.add_revealed_attr("zip").map_err(|e| e.to_string())?;
+    b.add_revealed_attr("level").map_err(|e| e.to_string())?;
+    b.add_predicate("age", "GE", 18).map_err(|e| e.to_string())?;
+    b.finalize().map_err(|e| e.to_string())
+}
+
+fn prove(
+    cd: &crate::fixtures::CredDef,
+    sig: &anoncreds_clsignatures::CredentialSignature,
+    values: &anoncreds_clsignatures::CredentialValues,
+    spr: &anoncreds_clsignatures::SubProofRequest,
+    nonce: &BigNumber,
+) -> Result<anoncreds_clsignatures::Proof, String> {
+    use anoncreds_clsignatures::Prover;
+    let e = |x: ClError| x.to_string();
+    let mut pb = Prover::new_proof_builder().map_err(e)?;
+    pb.add_common_attribute("master_secret").map_err(e)?;
+    pb.add_sub_proof_request(spr, &cd.schema, &cd.non_schema, sig, values, &cd.pk, None, None).map_err(e)?;
+    pb.finalize(nonce).map_err(e)
+}
+
+fn verify(
+    cd: &crate::fixtures::CredDef,
+    spr: &anoncreds_clsignatures::SubProofRequest,
+    proof: &anoncreds_clsignatures::Proof,
+    nonce: &BigNumber,
+) -> Result<bool, String> {
+    use anoncreds_clsignatures::Verifier;
+    let e = |x: ClError| x.to_string();
+    let mut pv = Verifier::new_proof_verifier().map_err(e)?;
+    pv.add_common_attribute("master_secret").map_err(e)?;
+    pv.add_sub_proof_request(spr, &cd.schema, &cd.non_schema, &cd.pk, None, None).map_err(e)?;
+    pv.verify(proof, nonce).map_err(e)
+}
+
+/// produce: keys (fixture; a fresh credential definition in the thorough tier), a credential whose
+/// values include 0 and numbers with zero low/high bytes, a presentation with a random nonce and
+/// one with the degenerate nonce 0; everything is verified locally and written as JSON
+fn gen_xchg_make(thorough: bool, _rng: &mut Rng) -> Result<(), String> {
+    use crate::fixtures::{issue, load_fixture, CredDef};
+    let dir = xchg_dir(backend());
+    std::fs::create_dir_all(&dir).map_err(|e| e.to_string())?;
+    let mut results = Vec::new();
+    let mut defs: Vec<(String, CredDef)> = vec![("fixture:pqr_norev".to_string(), load_fixture("pqr_norev")?)];
+    if thorough {
+        let spec = crate::fixtures::fixture_specs().into_iter().find(|s| s.0 == "pqr_norev").ok_or("no spec")?;
+        defs.push((format!("fresh:{}", backend()), CredDef::generate(&spec.1, &spec.2, false)?));
+    }
+    for (k, (label, cd)) in defs.iter().enumerate() {
+        let known = bmap(&[
+            ("name", "0"),
+            ("score", "255"),
+            ("level", "256"),
+            ("age", "28"),
+            ("balance", "340282366920938463463374607431768211456"),
+            ("zip", "65536"),
+        ]);
+        let hidden = bmap(&[("master_secret", "1139481716457488690172217916278103335"), ("policy", "0")]);
+        let r = guard(|| -> Result<Value, String> {
+            let cred = issue(cd, &known, &hidden, "xchg-prover", None)?;
+            let spr = make_request()?;
+            let nonce = anoncreds_clsignatures::new_nonce().map_err(|e| e.to_string())?;
+            let proof = prove(cd, &cred.sig, &cred.values, &spr, &nonce)?;
+            let zero = BigNumber::from_dec("0").map_err(|e| e.to_string())?;
+            let proof0 = prove(cd, &cred.sig, &cred.values, &spr, &zero)?;
+            let ok1 = verify(cd, &spr, &proof, &nonce)?;
+            let ok0 = verify(cd, &spr, &proof0, &zero)?;
+            let art = json!({
+                "producer": backend(), "keys": label, "cred_def": cd.to_json(),
+                "sig": jv(&cred.sig), "values": jv(&cred.values),
+                "proof": jv(&proof), "nonce": nonce.to_dec().map_err(|e| e.to_string())?,
+                "proof0": jv(&proof0), "self_verified": ok1, "self_verified_zero_nonce": ok0,
+            });
+            std::fs::write(dir.join(format!("art_{}.json", k)), serde_json::to_string(&art).unwrap()).map_err(|e| e.to_string())?;
+            Ok(json!({"ok1": ok1, "ok0": ok0}))
+        });
+        let (ok, detail) = match &r {
+            Out::Ok(v) => (v["ok1"] == json!(true) && v["ok0"] == json!(true), v.to_string()),
+            o => (false, format!("{}: {}", o.tag(), o.msg())),
+        };
+        results.push(json!({"what": "produce_and_self_verify", "ok": ok, "producer": backend(), "artefact": format!("art_{} ({})", k, label), "detail": detail}));
+    }
+    emit(&json!({"id": "bn_xchg_make/0", "op": "bn_xchg", "in": {"backend": backend(), "role": "produce"}, "impl": {"results": results},
+        "class": {"role": "produce"}}));
+    Ok(())
+}
+
+/// consume the artefacts written by the other build
+fn gen_xchg(_thorough: bool, _rng: &mut Rng) -> Result<(), String> {
+    use crate::fixtures::CredDef;
+    let dir = xchg_dir(other_backend());
+    let mut results = Vec::new();
+    let mut push = |what: &str, ok: bool, art: &str, detail: String| {
+        results.push(json!({"what": what, "ok": ok, "producer": other_backend(), "artefact": art, "detail": detail}));
+    };
+    let mut files: Vec<_> = match std::fs::read_dir(&dir) {
+        Ok(rd) => rd.filter_map(|e| e.ok()).map(|e| e.path()).filter(|p| p.extension().map(|x| x == "json").unwrap_or(false)).collect(),
+        Err(e) => {
+            push("artefacts_present", false, "-", format!("{}: {}", dir.display(), e));
+            Vec::new()
+        }
+    };
+    files.sort();
+    if files.is_empty() {
+        push("artefacts_present", false, "-", format!("no artefacts of the other build in {}", dir.display()));
+    }
+    for f in files {
+        let name = f.file_name().map(|x| x.to_string_lossy().to_string()).unwrap_or_default();
+        let txt = std::fs::read_to_string(&f).map_err(|e| e.to_string())?;
+        let art: Value = serde_json::from_str(&txt).map_err(|e| e.to_string())?;
+        let dec = guard(|| -> Result<_, String> {
+            let cd = CredDef::from_json(&art["cred_def"])?;
+            let sig: anoncreds_clsignatures::CredentialSignature = from_jv(&art["sig"])?;
+            let values: anoncreds_clsignatures::CredentialValues = from_jv(&art["values"])?;
+            let spr = make_request()?;
+            let proof: anoncreds_clsignatures::Proof = from_jv(&art["proof"])?;
+            let proof0: anoncreds_clsignatures::Proof = from_jv(&art["proof0"])?;
+            let nonce = BigNumber::from_dec(art["nonce"].as_str().unwrap_or("")).map_err(|e| e.to_string())?;
+            Ok((cd, sig, values, spr, proof, proof0, nonce))
+        });
+        let (cd, sig, values, spr, proof, proof0, nonce) = match dec {
+            Out::Ok(x) => {
+                push("decode", true, &name, String::new());
+                x
+            }
+            o => {
+                push("decode", false, &name, format!("{}: {}", o.tag(), o.msg()));
+                continue;
+            }
+        };
+        // serialisation is the same text under both builds
+        let same = jv(&sig) == art["sig"] && jv(&values) == art["values"] && jv(&proof) == art["proof"]
+            && cd.to_json()["pk"] == art["cred_def"]["pk"] && cd.to_json()["kcp"] == art["cred_def"]["kcp"];
+        push("reserialize_identical", same, &name, String::new());
+        // blind_credential_secrets checks the key correctness proof before anything else
+        let r = guard(|| -> Result<(), String> {
+            let hv = crate::fixtures::values_of(&std::collections::BTreeMap::new(), &bmap(&[("master_secret", "12345"), ("policy", "0")]))?;
+            let n = anoncreds_clsignatures::new_nonce().map_err(|e| e.to_string())?;
+            anoncreds_clsignatures::Prover::blind_credential_secrets(&cd.pk, &cd.kcp, &hv, &n).map(|_| ()).map_err(|e| e.to_string())
+        });
+        push("key_correctness_proof", r.is_ok(), &name, format!("{} {}", r.tag(), r.msg()));
+        let r = guard(|| verify(&cd, &spr, &proof, &nonce));
+        push("verify_foreign_proof", matches!(r, Out::Ok(true)), &name, format!("{:?}", r));
+        let zero = BigNumber::from_dec("0").map_err(|e| e.to_string())?;
+        let r = guard(|| verify(&cd, &spr, &proof0, &zero));
+        push("verify_foreign_proof_zero_nonce", matches!(r, Out::Ok(true)), &name, format!("{:?}", r));
+        let r = guard(|| -> Result<bool, String> {
+            let n = anoncreds_clsignatures::new_nonce().map_err(|e| e.to_string())?;
+            let p = prove(&cd, &sig, &values, &spr, &n)?;
+            verify(&cd, &spr, &p, &n)
+        });
+        push("prove_with_foreign_credential", matches!(r, Out::Ok(true)), &name, format!("{:?}", r));
+    }
+    emit(&json!({"id": "bn_xchg/0", "op": "bn_xchg", "in": {"backend": backend(), "role": "consume", "other": other_backend()},
+        "impl": {"results": results}, "class": {"role": "consume"}}));
+    Ok(())
+}
+
 /// streams of this module
 pub fn gen(stream: &str, thorough: bool, rng: &mut Rng) -> Option<Result<(), String>> {
     match stream {
         "bn" => Some(gen_bn(thorough, rng)),
         "bn_random" => Some(gen_bn_random(thorough, rng)),
+        "bn_xchg_make" => Some(gen_xchg_make(thorough, rng)),
+        "bn_xchg" => Some(gen_xchg(thorough, rng)),
         _ => None,
     }
 }
